@@ -1,4 +1,6 @@
 import ExprModel.Proofs.SpecOps
+import ExprModel.Proofs.SpecCtx
+import ExprModel.Proofs.SpecSlice
 /-
 C18 — Collection builtins satisfy their defining identities.
 
@@ -186,6 +188,45 @@ theorem count_returns_int (c : SCfg) (ctx : Ctx) (m : Meta) (xs b : Node) (s s1 
       | error e => simp at h
       | ok bs => simp at h; exact ⟨_, h.1.symm⟩
 
+/-! ### filter keeps exactly the satisfying elements, in order -/
+
+/-- `filter(xs, {p})` keeps exactly the satisfying elements, in index order: when it succeeds on an array
+    (or string) `coll`, the predicate was evaluated at every index in order (`seqIdx`, outcomes `bs`,
+    one per element), and the result is the `[]interface{}` of the elements whose outcome is `true`
+    (`keep`, = filter of the zipped list), a sublist of the elements; the state is that after the
+    predicate evaluations plus the charge for the kept elements.  (`seqIdx_get` says what `bs[k]` is:
+    the predicate's result at element k in the state reached after the first k evaluations.) -/
+theorem filter_keeps_in_order (c : SCfg) (ctx : Ctx) (m : Meta) (xs b : Node) (s s1 : SState) (v : Val)
+    (hseq : ∀ coll s', eval c ctx xs s = (.ok coll, s') → SeqVal coll)
+    (h : eval c ctx (.builtin m "filter" [xs, b]) s = (.ok v, s1)) :
+    ∃ coll s0 bs s2,
+      eval c ctx xs s = (.ok coll, s0) ∧
+      seqIdx (predAt c ctx coll b) (elemsOf coll).length 0 s0 = (.ok bs, s2) ∧
+      bs.length = (elemsOf coll).length ∧
+      v = .arr .iface (keep (elemsOf coll) bs) ∧
+      keep (elemsOf coll) bs = (((elemsOf coll).zip bs).filter (fun q => q.2)).map (fun q => q.1) ∧
+      List.Sublist (keep (elemsOf coll) bs) (elemsOf coll) ∧
+      s1 = { s2 with memory := s2.memory + (keep (elemsOf coll) bs).length,
+                     created := s2.created + (keep (elemsOf coll) bs).length } := by
+  rw [eval_filter_seq c ctx m xs b s hseq, SM.bind_apply] at h
+  rcases hx : eval c ctx xs s with ⟨r, s0⟩
+  rw [hx] at h
+  cases r with
+  | error e => simp at h
+  | ok coll =>
+    simp only [filterOn, SM.bind_apply] at h
+    rcases hb : seqIdx (predAt c ctx coll b) (elemsOf coll).length 0 s0 with ⟨r2, s2⟩
+    rw [hb] at h
+    cases r2 with
+    | error e => simp at h
+    | ok bs =>
+      simp only [SM.allocAfter] at h
+      by_cases hbud : s2.memory + ((keep (elemsOf coll) bs).length : Nat) ≥ c.budget
+      · simp [hbud] at h
+      · simp only [hbud, if_false, SM.pure_apply, Prod.mk.injEq, Except.ok.injEq] at h
+        exact ⟨coll, s0, bs, s2, rfl, hb, seqIdx_length _ _ _ _ _ _ hb, h.1.symm, keep_eq_zip _ _,
+          keep_sublist _ _, h.2.symm⟩
+
 /-! ### map -/
 
 /-- `map` after its collection has been evaluated: run the mapper at every index, then charge `n` -/
@@ -302,5 +343,195 @@ theorem map_fails_iff (c : SCfg) (ctx : Ctx) (m : Meta) (xs f : Node) (s s0 s' :
       rw [← hh.1, ← hh.2] at hs
       rw [← hh.2] at hb
       simp [hb, he, hs]
+
+/-! ### closures see the element of their own innermost collection -/
+
+/-- Evaluation looks at nothing of the closure context but its innermost entry: two contexts with the
+    same head give the same computation, for every tree (any nesting of builtins inside). -/
+theorem eval_depends_on_innermost_only (c : SCfg) (ctx1 ctx2 : Ctx) (h : ctx1.head? = ctx2.head?) (n : Node) :
+    eval c ctx1 n = eval c ctx2 n := eval_ctx_head c ctx1 ctx2 h n
+
+/-- `closure_sees_innermost`: inside `name(xs, {b})` (for each of all/none/any/one/count/filter/map, see
+    `eval_all` … `eval_map`: the body at element i is `bodyAt c ctx coll b i`) the body is evaluated with
+    the context extended by (collection, i); its meaning does not depend on the enclosing context at
+    all — whatever the nesting depth, it is the same computation as at top level — and `#` denotes
+    element i of that innermost collection. -/
+theorem closure_sees_innermost (c : SCfg) (ctx : Ctx) (coll : Val) (b : Node) (i : Nat) (mp : Meta) :
+    bodyAt c ctx coll b i = bodyAt c [] coll b i ∧
+    bodyAt c ctx coll (.pointer mp) i = SM.lift (fetchV coll (.int .int (i : Int)) false) := by
+  constructor
+  · exact eval_ctx_head c ((coll, (i : Int)) :: ctx) [(coll, (i : Int))] rfl b
+  · simp only [bodyAt, eval]
+
+/-- after a nested builtin the outer element is visible again: in the context of element `i` of `coll`,
+    `[#, inner(…), #]` evaluates `#` to element `i` of `coll` before and after the inner builtin,
+    whatever collection the inner builtin iterates over -/
+theorem outer_element_restored (c : SCfg) (ctx : Ctx) (coll : Val) (i : Int) (m m1 m2 mi : Meta)
+    (name : String) (args : List Node) :
+    eval c ((coll, i) :: ctx) (.array m [.pointer m1, .builtin mi name args, .pointer m2]) = (do
+      let e ← SM.lift (fetchV coll (.int .int i) false)
+      let v ← eval c [(coll, i)] (.builtin mi name args)
+      let e' ← SM.lift (fetchV coll (.int .int i) false)
+      SM.allocAfter c.budget 3 3
+      pure (.arr .iface [e, v, e'])) := by
+  have h := eval_ctx_head c ((coll, i) :: ctx) [(coll, i)] rfl (.builtin mi name args)
+  have hp : ∀ mp, eval c ((coll, i) :: ctx) (.pointer mp) = SM.lift (fetchV coll (.int .int i) false) :=
+    fun mp => by rw [eval]
+  conv => lhs; rw [eval]
+  simp only [evalList, hp, h, bind_assoc, pure_bind, List.length_cons, List.length_nil]
+  rfl
+
+/-! ### membership in an integer range -/
+
+/-- what a run-time range adds: refused *before* it is built when the total would reach the budget -/
+def chargeRange (budget counted : Int) (built : Nat) : R Val × SState → R Val × SState
+  | (r, s) =>
+    if s.memory + counted ≥ budget then (.error .budget, s)
+    else (r, { s with memory := s.memory + counted, created := s.created + built })
+
+/-- elements a range `lo..hi` is charged for (`rangeSizeSigned` mirrors the unchanged code, C06) -/
+def rangeCounted (c : SCfg) (lo hi : Int) : Int :=
+  if c.rangeSizeSigned = true then hi - lo + 1 else if hi - lo + 1 < 0 then 0 else hi - lo + 1
+
+theorem two_sided_value (c : SCfg) (ctx : Ctx) (ma mg ml : Meta) (x lo hi : Node) (s : SState)
+    (k : Kind) (v lo' hi' : Int)
+    (hx : eval c ctx x s = (.ok (.int k v), s))
+    (hlo : eval c ctx lo s = (.ok (.int .int lo'), s))
+    (hhi : eval c ctx hi s = (.ok (.int .int hi'), s))
+    (hk : k.isInt = true) (hb : BoundsFit k lo' hi') :
+    eval c ctx (.binary ma "and" (.binary mg ">=" x lo) (.binary ml "<=" x hi)) s =
+      (.ok (.bool (decide (lo' ≤ normInt k v ∧ normInt k v ≤ hi'))), s) := by
+  have h1 : normBound k lo' = lo' := normBound_fit k hk lo' (fun hr => (hb hr).1)
+  have h2 : normBound k hi' = hi' := normBound_fit k hk hi' (fun hr => (hb hr).2)
+  rw [eval_and, SM.bind_apply, eval_arith c ctx mg ">=" .moreOrEqual rfl, SM.bind_apply, hx]
+  simp only [SM.bind_apply, hlo, ge_int_kind k hk, h1, SM.lift_ok, SM.pure_apply, asBool]
+  by_cases hge : normInt k v ≥ lo'
+  · simp only [hge, decide_true, if_true]
+    rw [eval_arith c ctx ml "<=" .lessOrEqual rfl, SM.bind_apply, hx]
+    simp only [SM.bind_apply, hhi, le_int_kind k hk, h2, SM.lift_ok, SM.pure_apply]
+    have : lo' ≤ normInt k v := hge
+    simp
+  · have : ¬ lo' ≤ normInt k v := hge
+    simp [hge]
+
+theorem in_range_eq_two_sided (c : SCfg) (ctx : Ctx) (mi mr ma mg ml : Meta) (x lo hi : Node) (s : SState)
+    (k : Kind) (v lo' hi' : Int)
+    (hx : eval c ctx x s = (.ok (.int k v), s))
+    (hlo : eval c ctx lo s = (.ok (.int .int lo'), s))
+    (hhi : eval c ctx hi s = (.ok (.int .int hi'), s))
+    (hlo64 : inRange .int lo') (hhi64 : inRange .int hi')
+    (hk : k.isInt = true) (hb : BoundsFit k lo' hi') :
+    eval c ctx (.binary mi "in" x (.binary mr ".." lo hi)) s =
+      chargeRange c.budget (rangeCounted c lo' hi') (rangeElems lo' hi').length
+        (eval c ctx (.binary ma "and" (.binary mg ">=" x lo) (.binary ml "<=" x hi)) s) := by
+  rw [two_sided_value c ctx ma mg ml x lo hi s k v lo' hi' hx hlo hhi hk hb]
+  rw [eval_in, SM.bind_apply, hx]
+  simp only [eval_range, SM.bind_apply, hlo, hhi, toIntR_int' _ hlo64, toIntR_int' _ hhi64, SM.lift_ok,
+    SM.pure_apply, SM.allocBefore, chargeRange]
+  by_cases hbud : s.memory + rangeCounted c lo' hi' ≥ c.budget
+  · simp only [rangeCounted] at hbud
+    simp only [rangeCounted, hbud, if_true]
+  · simp only [rangeCounted] at hbud
+    simp only [rangeCounted, hbud, if_false, inV, SM.lift_ok, SM.pure_apply, range_any_eq k hk lo' hi' v hb]
+
+/-- error propagation: a left operand that fails makes both sides fail with that class in that state
+    (before the range is built or any comparison is made) -/
+theorem in_range_error (c : SCfg) (ctx : Ctx) (mi mr ma mg ml : Meta) (x lo hi : Node) (s s1 : SState)
+    (e : ErrClass) (hx : eval c ctx x s = (.error e, s1)) :
+    eval c ctx (.binary mi "in" x (.binary mr ".." lo hi)) s = (.error e, s1) ∧
+    eval c ctx (.binary ma "and" (.binary mg ">=" x lo) (.binary ml "<=" x hi)) s = (.error e, s1) := by
+  constructor
+  · rw [eval_in, SM.bind_apply, hx]
+  · rw [eval_and, SM.bind_apply, eval_arith c ctx mg ">=" .moreOrEqual rfl, SM.bind_apply, hx]
+
+/-- corollary: same value when the budget is not reached, same call log always -/
+theorem in_range_value_log (c : SCfg) (ctx : Ctx) (mi mr ma mg ml : Meta) (x lo hi : Node) (s : SState)
+    (k : Kind) (v lo' hi' : Int)
+    (hx : eval c ctx x s = (.ok (.int k v), s))
+    (hlo : eval c ctx lo s = (.ok (.int .int lo'), s))
+    (hhi : eval c ctx hi s = (.ok (.int .int hi'), s))
+    (hlo64 : inRange .int lo') (hhi64 : inRange .int hi')
+    (hk : k.isInt = true) (hb : BoundsFit k lo' hi') :
+    (eval c ctx (.binary mi "in" x (.binary mr ".." lo hi)) s).2.log =
+      (eval c ctx (.binary ma "and" (.binary mg ">=" x lo) (.binary ml "<=" x hi)) s).2.log ∧
+    (s.memory + rangeCounted c lo' hi' < c.budget →
+      (eval c ctx (.binary mi "in" x (.binary mr ".." lo hi)) s).1 =
+        (eval c ctx (.binary ma "and" (.binary mg ">=" x lo) (.binary ml "<=" x hi)) s).1) := by
+  rw [in_range_eq_two_sided c ctx mi mr ma mg ml x lo hi s k v lo' hi' hx hlo hhi hlo64 hhi64 hk hb,
+    two_sided_value c ctx ma mg ml x lo hi s k v lo' hi' hx hlo hhi hk hb]
+  constructor
+  · simp only [chargeRange]; split <;> rfl
+  · intro hbud
+    have : ¬ (s.memory + rangeCounted c lo' hi' ≥ c.budget) := by omega
+    simp only [chargeRange, this, if_false]
+
+/-- `-128 : int8` -/
+def xI8 : Node := .const {} (.int .int8 (-128))
+
+/-- The identity genuinely fails (on the Spec, as on the real VM) for a left operand of a signed kind
+    narrower than `int` when a bound does not fit that kind: `int8(-128) in 127..129` is `true` (the
+    element 128 is converted to `int8`, giving -128) while `int8(-128) >= 127 and …` is `false`. -/
+theorem in_range_narrow_kind_witness :
+    (eval c0 [] (.binary {} "in" xI8 (.binary {} ".." (.int {} 127) (.int {} 129))) {}).1 = .ok (.bool true) ∧
+    (eval c0 [] (.binary {} "and" (.binary {} ">=" xI8 (.int {} 127)) (.binary {} "<=" xI8 (.int {} 129))) {}).1
+      = .ok (.bool false) ∧
+    ¬ BoundsFit .int8 127 129 := by
+  refine ⟨rfl, rfl, ?_⟩
+  simp [BoundsFit, Kind.rank, inRange, Kind.isSigned, Kind.bits]
+
+/-- `M` is a map: `count(M, {true})` is 1 but `len(filter(M, {true}))` is a type error (a map cannot be
+    indexed by position) — the identity is about arrays, as the property says -/
+theorem count_len_filter_map_witness :
+    (eval c0 [] (.builtin {} "count" [.ident {} "M" false, .closure {} (.bool {} true)]) {}).1 = .ok (.int .int 1) ∧
+    (eval c0 [] (.builtin {} "len" [.builtin {} "filter" [.ident {} "M" false, .closure {} (.bool {} true)]]) {}).1
+      = .error .type_ := ⟨rfl, rfl⟩
+
+/-- non-vacuity of `in_range_eq_two_sided`: `uint8(200) in 1..300` -/
+example : eval c0 [] (.const {} (.int .uint8 200)) {} = (.ok (.int .uint8 200), {}) ∧
+    eval c0 [] (.int {} 1) {} = (.ok (.int .int 1), {}) ∧ eval c0 [] (.int {} 300) {} = (.ok (.int .int 300), {}) ∧
+    inRange .int 1 ∧ inRange .int 300 ∧ Kind.uint8.isInt = true ∧ BoundsFit .uint8 1 300 :=
+  ⟨rfl, rfl, rfl, by decide, by decide, rfl, by simp [BoundsFit, Kind.rank]⟩
+/-- … and for a signed narrow kind with fitting bounds: `int8(-1) in -5..100` -/
+example : BoundsFit .int8 (-5) 100 := by
+  intro _; constructor <;> decide
+
+/-! ### slicing at i partitions a sequence -/
+
+/-- arrays: for `0 ≤ i`, `xs[:i]` and `xs[i:]` (at the level of `sliceV`, with the defaults `0` and
+    `len xs` the evaluator supplies) are the first `i` elements and the rest — clamped when `i > len` —
+    and concatenate to `xs`; the element type tag is kept -/
+theorem slice_partitions (t : ElemT) (xs : List Val) (i : Int) (h0 : 0 ≤ i) (hi : inRange .int i)
+    (hlen : inRange .int (xs.length : Nat)) :
+    ∃ l r, sliceV (.arr t xs) (.int .int 0) (.int .int i) = .ok (.arr t l) ∧
+           sliceV (.arr t xs) (.int .int i) (.int .int (xs.length : Nat)) = .ok (.arr t r) ∧
+           l ++ r = xs ∧ l.length = min i.toNat xs.length :=
+  ⟨xs.take i.toNat, xs.drop i.toNat, sliceV_arr_prefix t xs i h0 hi, sliceV_arr_suffix t xs i h0 hi hlen,
+    List.take_append_drop _ _, List.length_take⟩
+
+example : inRange .int 2 ∧ inRange .int (([Val.nil, Val.nil, Val.nil].length : Nat) : Int) := by decide
+
+/-- a negative `i` fails on both sides, with class `index` -/
+theorem slice_negative_fails (t : ElemT) (xs : List Val) (i : Int) (h0 : i < 0) (hi : inRange .int i)
+    (hlen : inRange .int (xs.length : Nat)) :
+    sliceV (.arr t xs) (.int .int 0) (.int .int i) = .error .index ∧
+    sliceV (.arr t xs) (.int .int i) (.int .int (xs.length : Nat)) = .error .index :=
+  sliceV_arr_neg t xs i h0 hi hlen
+
+/-- strings (sliced by bytes): for `0 ≤ i`, whenever both pieces are strings — i.e. valid UTF-8, which
+    is the case when the cut falls on a character boundary, always for ASCII — `s[:i] + s[i:] = s` -/
+theorem slice_partitions_str (s : String) (i : Int) (h0 : 0 ≤ i) (hi : inRange .int i)
+    (hlen : inRange .int ((strBytes s).length : Nat)) (a b : String)
+    (ha : sliceV (.str s) (.int .int 0) (.int .int i) = .ok (.str a))
+    (hb : sliceV (.str s) (.int .int i) (.int .int ((strBytes s).length : Nat)) = .ok (.str b)) :
+    a ++ b = s := by
+  rw [sliceV_str_prefix s i h0 hi] at ha
+  rw [sliceV_str_suffix s i h0 hi hlen] at hb
+  exact strCut_partition s i.toNat a b ha hb
+
+theorem slice_negative_fails_str (s : String) (i : Int) (h0 : i < 0) (hi : inRange .int i)
+    (hlen : inRange .int ((strBytes s).length : Nat)) :
+    sliceV (.str s) (.int .int 0) (.int .int i) = .error .index ∧
+    sliceV (.str s) (.int .int i) (.int .int ((strBytes s).length : Nat)) = .error .index :=
+  sliceV_str_neg s i h0 hi hlen
 
 end ExprModel.C18
